@@ -237,3 +237,29 @@ def runQry (c : Case) : Res :=
         | _ => pure ()
       if !bad.isEmpty then return { status := "ORACLE", detail := " ; ".intercalate (bad.reverse.take 6), stats := stats }
       return { status := "ok", stats := stats }
+
+
+/-- C12, K1 on the tolerance formula: `adaptive_tolerance(matrix, base)` must equal
+`base + 1e-12 · ‖A‖∞`, the norm taken without the last column exactly when every entry of that
+column is within 2⁻⁵² of 1 (relative 1e-9: the float evaluation rounds) -/
+def runTol (c : Case) : Res :=
+  let rows? := (c.recsOf "mr").mapM (fun r => r.mapM (fun t => (parseF64 t).bind F64.dy?))
+  let base? := ((c.recsOf "base").head?.bind List.head?).bind (fun t => (parseF64 t).bind F64.dy?)
+  match rows?, base? with
+  | some rows, some base =>
+    let q := rows.map (·.map Q.ofDy)
+    let epsQ : Q := ⟨1, 2 ^ 52⟩
+    let lastOnes := !q.isEmpty && q.all (fun r => match r.getLast? with
+      | some x => Q.le (Q.abs (x - Q.ofInt 1)) epsQ
+      | none => false)
+    let rs := if lastOnes then q.map List.dropLast else q
+    let want := Q.ofDy base + qTen 12 * maxRowSum rs
+    let stats := [s!"tol.k{c.argNat "k"}", s!"tol.lastOnes.{lastOnes}"]
+    match (parseF64 (c.ob1 "tol")).bind F64.dy? with
+    | some got =>
+      let g := Q.ofDy got
+      let rel : Q := ⟨1, 10 ^ 9⟩
+      if Q.le (Q.abs (g - want)) (rel * want) then { status := "ok", stats := stats }
+      else { status := "ORACLE", detail := s!"adaptive_tolerance = {repr g} but base + 1e-12·‖A‖∞ = {repr want} (constant-one last column excluded: {lastOnes})", stats := stats }
+    | none => { status := "ORACLE", detail := s!"adaptive_tolerance returned {c.ob1 "tol"}", stats := stats }
+  | _, _ => { status := "skip", detail := "non-finite" }
